@@ -229,12 +229,21 @@ def explore(ctx, res, replay=None):
             pats += [list(p) for p in itertools.product(alpha, repeat=ln)]
         if quick:
             pats += [list(p) for p in rng.sample(list(itertools.product(alpha, repeat=3)), 500)]
+        slots_ = ['<ID>', '<INT>', '<V>', '<ARGS>', '<P>']
+        for s1 in slots_:
+            for sep in [';', ',', 'x']:
+                for s2 in slots_:
+                    for tail in [[], ['END'], ['x'], [';'], [','], ['+']]:
+                        pats.append([s1, sep, s2] + tail)
+                        pats.append(['LOOP', s1, sep, s2] + tail)
         inst = {'<ID>': 'a', '<INT>': '3', '<V>': 'b', '<ARGS>': 'a , 4', '<P>': 'c := 1'}
+        inst2 = {'<ID>': 'a', '<INT>': '3', '<V>': 'RUN g WITH b END', '<ARGS>': 'a , 4 , b', '<P>': 'c := 1 ; d := 2 ; STOP'}
         for p in pats:
             use = ' '.join(inst.get(s, s) for s in p)
-            add('pattern', ['DEFINE %s AS hit END DEFINE' % ' '.join(p), 'DEFINE GOOD AS fine END DEFINE'], 'GOOD ; %s ; GOOD %s end' % (use, use), [4])
+            use2 = ' '.join(inst2.get(s, s) for s in p)
+            add('pattern', ['DEFINE %s AS hit END DEFINE' % ' '.join(p), 'DEFINE GOOD AS fine END DEFINE'], 'GOOD ; %s ; GOOD %s end %s' % (use, use, use2), [4])
     else:
-        L = 4 if quick else 6
+        L = (4 if pid == 'C09' else 3) if quick else 6
         for fam, voc, seeds in FAMILIES:
             bl = [1] if pid == 'C09' else [1, 2, 3, 5]
             for sd in seeds:
@@ -256,9 +265,17 @@ def explore(ctx, res, replay=None):
                    'DEFINE zero <V> AS #1 := $0 ; #1 := 0 END DEFINE']
             for s in ('swap a b ; swap b a', 'twice swap a b end', 'twice twice swap a b end end', 'zero RUN f WITH zero END', 'twice zero a ; swap a b end ; zero b'):
                 add('hygiene', hyg, s, list(range(1, 12)))
+            for (l1, l2) in ((1, 11), (2, 21), (1, 12), (11, 111)):
+                src_lines = [''] * (max(l1, l2) + 2)
+                src_lines[l1 - 1] = 'DEFINE SAVE <ID> AROUND <P> END AS #0 := $0 ; $1 ; $0 := #0 END DEFINE'
+                src_lines[l2 - 1] = 'DEFINE ZERO <ID> AS #0 := 0 ; $0 := #0 END DEFINE'
+                src_lines[max(l1, l2)] = 'DEFINE NOP AS q := q END DEFINE'
+                for k_ in (0, 3, 8, 9, 10, 11):
+                    add('hygiene_lines', src_lines, 'x := 7 ; SAVE x AROUND ZERO y' + ' ; NOP' * k_ + ' END', list(range(1, k_ + 4)))
             # temporaries on equal line numbers in several files, file names with ':' '_(M' ')' and digits
-            loops = ['DEFINE grow AS grow grow END DEFINE', 'DEFINE ping AS pong END DEFINE\nDEFINE pong AS ping END DEFINE', 'DEFINE one AS two END DEFINE\nDEFINE two AS three END DEFINE']
-            for d, s in zip(loops, ('grow', 'ping', 'one one')):
+            loops = ['DEFINE PRIO 10 ping AS pong END DEFINE\nDEFINE PRIO 5 pong AS ping END DEFINE', 'DEFINE PRIO 7 nop AS x END DEFINE\nDEFINE grow AS grow grow END DEFINE',
+                     'DEFINE PRIO 3 a AS b END DEFINE\nDEFINE PRIO 2 b AS c END DEFINE\nDEFINE PRIO 1 c AS a END DEFINE', 'DEFINE grow AS grow grow END DEFINE', 'DEFINE ping AS pong END DEFINE\nDEFINE pong AS ping END DEFINE', 'DEFINE one AS two END DEFINE\nDEFINE two AS three END DEFINE']
+            for d, s in zip(loops, ('ping', 'grow nop', 'a x', 'grow', 'ping', 'one one')):
                 add('selfrep', [d], s, list(range(1, 21)) + [1024])
     iout = ctx.run_impl(cases, timeout_case=30)
     mout = ctx.run_model(cases, timeout_case=30)
@@ -290,6 +307,11 @@ def explore(ctx, res, replay=None):
                 res.compared += 1
                 ml = mout[cid]
                 if ml != il and not ml.startswith('TIMEOUT'):
+                    if pid == 'C12' and ('Mmacro_non_lr' in il) != ('Mmacro_non_lr' in ml):
+                        # usability IS conflict-freedom of the canonical LR(1) prefix construction, which the model computes
+                        res.violations.append(dict(case, what='verdict', budget=meta[cid][3],
+                                                   detail='pattern %s by the implementation, %s by the LR(1) prefix construction' % (
+                                                       'rejected' if 'Mmacro_non_lr' in il else 'accepted', 'rejected' if 'Mmacro_non_lr' in ml else 'accepted')))
                     res.tie_broken.append(dict(case, what='implementation and model disagree (budget %s)' % meta[cid][3], impl=il[:500], model=ml[:500]))
             outs[meta[cid][3]] = il
         if broken:
@@ -324,6 +346,17 @@ def explore(ctx, res, replay=None):
                     res.violations.append(dict(case, what='report', detail='non-linear macro not reported once at its definition: %s' % non_lr))
             else:
                 res.count('accepted')
+                # an accepted pattern must be prefix-deterministic: no stream may match it in two ways from one start
+                kinds = [t[0] for t in xtoks]
+                ch = Chart(kinds)
+                pm = macros[0]['rule'] if macros else []
+                for i0 in range(len(xtoks)):
+                    ways = []
+                    for j0 in range(i0, len(xtoks) + 1):
+                        ways += [(j0, tuple(rg)) for rg in match_pattern(ch, xtoks, pm, i0, j0)] if pm else []
+                    if len(ways) > 1:
+                        res.violations.append(dict(case, what='ambiguous', detail='accepted pattern %s matches the stream at token %d in %d ways' % (' '.join(pat), i0, len(ways))))
+                        break
                 if not hit:
                     res.violations.append(dict(case, what='not_applied', detail='accepted pattern %s did not match its own instance' % ' '.join(pat)))
             if rejected and fine != 2:
@@ -380,21 +413,54 @@ def explore(ctx, res, replay=None):
                     res.violations.append(dict(case, what='growth', budget=b, detail='stream grew beyond the step bound'))
         # ---------------- C10: temporaries of a step are fresh ----------------
         if pid == 'C10':
+            # provenance: a renamed temporary keeps the position of the #n token of its macro body, so equal names at
+            # positions belonging to different macro definitions are temporaries of different expansion steps
+            origin = {}
+            for mi_, m_ in enumerate(macros):
+                for t_ in m_['repl']:
+                    if t_[0] == K['TEMP_VAL']:
+                        origin[(t_[1], t_[2], bytes.fromhex(t_[3]).decode('latin-1'))] = mi_
+            for b in budgets:
+                owner = {}
+                for t_ in ap[b][0]:
+                    if t_[0] == 1 and t_[3].startswith('23'):
+                        nm_ = bytes.fromhex(t_[3]).decode('latin-1')
+                        o_ = origin.get((t_[1], t_[2], nm_.split(':')[0]))
+                        if o_ is None:
+                            continue
+                        if nm_ in owner and owner[nm_] != o_:
+                            res.violations.append(dict(case, what='shared', budget=b, detail='temporaries of two different macros (definitions %d and %d) both became %r' % (owner[nm_], o_, nm_)))
+                            break
+                        owner[nm_] = o_
             prev = None
             for b in budgets:
                 names = [t[3] for t in ap[b][0] if t[0] == 1 and t[3].startswith('23')]
-                for nm in names:
-                    s = bytes.fromhex(nm).decode('latin-1')
-                    if not re.match(r'^#\d+:.*:\d+_\(M\d+\)$', s, flags=re.S):
-                        res.violations.append(dict(case, what='name', budget=b, detail='renamed temporary %r does not have the fresh-name shape' % s))
                 if prev is not None and b == prev[0] + 1:
-                    new = set(names) - set(prev[1])
-                    # the step taken at pass b-1 introduces names carrying exactly that pass number
-                    for nm in new:
-                        s = bytes.fromhex(nm).decode('latin-1')
-                        if not s.endswith('_(M%d)' % (b - 1)):
-                            res.violations.append(dict(case, what='fresh', budget=b, detail='temporary %r introduced by pass %d does not carry its pass number' % (s, b - 1)))
-                prev = (b, names)
+                    # the step taken at pass b-1: the names it introduces must be new — different from every temporary of every
+                    # earlier step still in the stream.  A step that introduces temporaries makes the multiset of '#'-names grow;
+                    # if the SET does not grow by as many distinct names as the body has distinct #n, two steps share a name.
+                    before, after = prev[1], names
+                    A = [(t[0], t[3]) for t in prev[2]]
+                    B = [(t[0], t[3]) for t in ap[b][0]]
+                    pre = 0
+                    while pre < min(len(A), len(B)) and A[pre] == B[pre]:
+                        pre += 1
+                    suf = 0
+                    while suf < min(len(A), len(B)) - pre and A[len(A) - 1 - suf] == B[len(B) - 1 - suf]:
+                        suf += 1
+                    removed = A[pre:len(A) - suf]
+                    inserted = B[pre:len(B) - suf]
+                    tmp = lambda l: set(x[1] for x in l if x[0] == 1 and x[1].startswith('23'))
+                    fresh_names = tmp(inserted) - tmp(removed)          # introduced by #n of the body, not copied from a slot
+                    clash = fresh_names & tmp(A[:pre] + A[len(A) - suf:])
+                    if clash:
+                        res.violations.append(dict(case, what='fresh', budget=b, detail='pass %d introduced temporary %r, which already names a temporary of an earlier step' % (
+                            b - 1, bytes.fromhex(sorted(clash)[0]).decode('latin-1'))))
+                    for nm in set(after):
+                        s2 = bytes.fromhex(nm).decode('latin-1')
+                        if re.match(r'^[A-Za-z_][A-Za-z0-9_]*$', s2):
+                            res.violations.append(dict(case, what='user', budget=b, detail='renamed temporary %r is a name a user can write' % s2))
+                prev = (b, names, ap[b][0])
             # a renamed temporary can never be scanned as a user identifier: it starts with '#'
         if len(res.samples) < 3 and kind == 'random' and k % 37 == 0:
             res.sample({'defs': defs, 'stream': stream, 'after_1': ' '.join(bytes.fromhex(t[3]).decode('latin-1') for t in ap[budgets[0]][0])[:200] if budgets else ''})
